@@ -7,6 +7,7 @@ use ktio::seq::SeqFormat;
 pub const FORMAT_NAMES: &[&str] = &[
     "x.fa", "x.fasta", "x.fna", "x.fq", "x.fastq", "x.fa.gz", "x.fasta.gz", "x.fna.gz", "x.fq.gz",
     "x.fastq.gz", "x.txt", "x.gz", "x", "x.fa.bz2", "x.FA", "fa", "x.fastq.fa", "x.fa.fq", "x.fas",
+    ".fa", "dir/.fastq", ".fq.gz", "reads.fq.fa.gz", "a.fq/x.fa", "x.fastq.fasta", ".gz", "x..fa",
 ];
 
 fn arr(v: &[i64]) -> String {
